@@ -73,14 +73,15 @@ def rule_init(R):
     R.exact("init/quota-store", len(qs), 1, "stores to send_quota in the handshake")
     for (b, bb, v, span) in ms:
         alts = phi_alts(v)
-        ok = len(alts) == 2 and any(is_call(peel(a), "max_inflight") for a in alts) and any(is_min_of_recvmax(a) for a in alts)
+        ok = all(is_call(peel(a), "max_inflight") or is_min_of_recvmax(a) for a in alts) \
+            and any(is_call(peel(a), "max_inflight") for a in alts) and any(is_min_of_recvmax(a) for a in alts)
         R.ob("init/max-value", ok,
              "the window stored by the handshake is the local in-flight capacity, or min(Receive Maximum, capacity) when "
              "the CONNACK carries one (found %s)" % show(v), where=span)
     for (b, bb, v, span) in qs:
         base = [x for x in walk(v) if x[0] == "phi"]
         ok = any(any(is_call(peel(a), "max_inflight") for a in phi_alts(p)) and any(is_min_of_recvmax(a) for a in phi_alts(p)) for p in base) \
-            or (len(phi_alts(v)) == 2 and any(is_min_of_recvmax(a) for a in phi_alts(v)))
+            or (len(phi_alts(v)) >= 2 and any(is_min_of_recvmax(a) for a in phi_alts(v)))
         R.ob("init/quota-value", ok,
              "the quota stored by the handshake is derived from the same clamped window (found %s)" % show(v), where=span)
         # resume: depends on in-flight state
